@@ -116,7 +116,7 @@ class C18(Check):
             desc = {"generated": case[1]}
         d1 = os.path.join(d, "dump-run.txt")
         d2 = os.path.join(d, "dump-tr.txt")
-        r1 = driver.run(["run", entry, "-q"], cwd, env={"MSCRIPT_VERIF_DUMP": d1}, timeout=20)
+        r1 = driver.run(["run", entry, "-q"], cwd, env={"MSCRIPT_VERIF_DUMP": d1}, timeout=(8 if os.environ.get("VERIF_TIER_","quick")=="quick" else 30))
         if r1.timeout:
             return {"outcome": "skipped-timeout", "nontrivial": False, "tags": ["skipped-timeout"]}
         for root, _, fs in os.walk(cwd):
@@ -146,7 +146,7 @@ class C18(Check):
         if stage == "compile":
             if r1.exit == 0:
                 bad("compile-differs", f"`run` ran the program but raw-text compile failed: {r2.err[-300:]}")
-            return {"outcome": "rejected" if not viol else "bad", "viol": viol, "nontrivial": False, "tags": ["rejected"]}
+            return {"outcome": "rejected" if not viol else "bad", "viol": viol, "nontrivial": False, "tags": ["rejected", case[0] + "-rejected"]}
         if stage == "transpile":
             bad("transpile-failed", f"transpile failed ({r2.cls}): {(r2.err or r2.out)[-300:]}")
         else:
@@ -170,4 +170,6 @@ class C18(Check):
         for t in ["str", "ex", "op"]:
             if not stats["tags"].get(t):
                 errs.append(f"vacuity: no case of kind {t}")
+        if stats["tags"].get("str-rejected"):
+            errs.append(f"vacuity: {stats['tags']['str-rejected']} string-literal programs were rejected by the compiler (template broken)")
         return errs
